@@ -3,6 +3,7 @@
 package impl
 
 import (
+	"reflect"
 	"unsafe"
 
 	"google.golang.org/protobuf/encoding/protowire"
@@ -207,6 +208,23 @@ func contract_consumeBytesSlice(b []byte, p pointer, wtyp protowire.Type, f *cod
 //@ nopanic
 func contract_MessageInfo_unmarshalPointerEager(mi *MessageInfo, b []byte, p pointer, groupTag protowire.Number, opts unmarshalOptions) (out unmarshalOutput, err error) {
 	requires(mi != nil && p.p != nil)
+	modifiesAll()
+	return
+}
+
+// ---------------------------------------------------------------- error propagation in the marshal glue (C13)
+
+// The map-entry glue calls the key and value coders through function tables (abstracted:
+// dynamic calls return arbitrary results). What is checked is that an error obtained from any
+// of them - for a map key coder that can only be the invalid-UTF-8 error - is never dropped:
+// whenever a callee returned a non-nil error, appendMapItem returns a non-nil error.
+//
+//@ props C13
+//@ mode int
+//@ guard-errors
+//@ nopanic
+func contract_appendMapItem(b []byte, keyrv, valrv reflect.Value, mapi *mapInfo, f *coderFieldInfo, opts marshalOptions) (r []byte, err error) {
+	requires(mapi != nil && f != nil)
 	modifiesAll()
 	return
 }
